@@ -68,46 +68,71 @@ func c04Watch(c *core.Ctx, info *c04Info) {
 		id, ok := ast.Unparen(u.X).(*ast.Ident)
 		return ok && watchChans[c04ObjOf(f.Info, id)]
 	}
-	// the comm clause receiving a report, inside a goroutine literal
+	// the comm clause receiving a report, inside the goroutine's body: a function literal or a
+	// same-package function/method started with `go` (searched in the watch function and the
+	// same-package functions it calls)
 	type watch struct {
 		gs     *ast.GoStmt
-		lit    *ast.FuncLit
+		body   *ast.BlockStmt
+		lf     *flow.Func
 		clause *ast.CommClause
 		ev     types.Object // variable bound to the received event (nil if discarded)
 	}
 	var ws []watch
-	ast.Inspect(f.Body, func(n ast.Node) bool {
-		gs, ok := n.(*ast.GoStmt)
-		if !ok {
-			return true
-		}
-		lit, ok := ast.Unparen(gs.Call.Fun).(*ast.FuncLit)
-		if !ok {
-			return true
-		}
-		ast.Inspect(lit.Body, func(m ast.Node) bool {
-			cc, ok := m.(*ast.CommClause)
-			if !ok || cc.Comm == nil {
+	for _, g := range reach(f, 3) {
+		// channels obtained from Watch() held in locals of g or of the goroutine body
+		ast.Inspect(g.Body, func(n ast.Node) bool {
+			gs, ok := n.(*ast.GoStmt)
+			if !ok {
 				return true
 			}
-			switch s := cc.Comm.(type) {
-			case *ast.AssignStmt:
-				if len(s.Rhs) == 1 && isWatchRecv(s.Rhs[0]) {
-					w := watch{gs: gs, lit: lit, clause: cc}
-					if id, ok := s.Lhs[0].(*ast.Ident); ok && id.Name != "_" {
-						w.ev = c04ObjOf(f.Info, id)
-					}
-					ws = append(ws, w)
-				}
-			case *ast.ExprStmt:
-				if isWatchRecv(s.X) {
-					ws = append(ws, watch{gs: gs, lit: lit, clause: cc})
+			var body *ast.BlockStmt
+			var lf *flow.Func
+			if lit, ok := ast.Unparen(gs.Call.Fun).(*ast.FuncLit); ok {
+				body, lf = lit.Body, g.Lit(lit)
+			} else if fo, _ := g.Callee(gs.Call).(*types.Func); fo != nil && fo.Pkg() == g.Pkg.Types {
+				if gd := declOf(g.Pkg, fo); gd != nil {
+					lf = funcOf(g.Pkg, gd)
+					body = gd.Body
 				}
 			}
-			return true
+			if body == nil {
+				return true
+			}
+			ast.Inspect(body, func(m ast.Node) bool {
+				if as, ok := m.(*ast.AssignStmt); ok && len(as.Lhs) == len(as.Rhs) {
+					for i, r := range as.Rhs {
+						if id, isID := as.Lhs[i].(*ast.Ident); isID && isWatchCall(r) {
+							watchChans[c04ObjOf(f.Info, id)] = true
+						}
+					}
+				}
+				return true
+			})
+			ast.Inspect(body, func(m ast.Node) bool {
+				cc, ok := m.(*ast.CommClause)
+				if !ok || cc.Comm == nil {
+					return true
+				}
+				switch s := cc.Comm.(type) {
+				case *ast.AssignStmt:
+					if len(s.Rhs) == 1 && isWatchRecv(s.Rhs[0]) {
+						w := watch{gs: gs, body: body, lf: lf, clause: cc}
+						if id, ok := s.Lhs[0].(*ast.Ident); ok && id.Name != "_" {
+							w.ev = c04ObjOf(f.Info, id)
+						}
+						ws = append(ws, w)
+					}
+				case *ast.ExprStmt:
+					if isWatchRecv(s.X) {
+						ws = append(ws, watch{gs: gs, body: body, lf: lf, clause: cc})
+					}
+				}
+				return true
+			})
+			return false
 		})
-		return false
-	})
+	}
 	consA := cons + "|every return has started the watch goroutine"
 	if len(ws) == 0 {
 		c.Violate("R-C04-7", consA, pos(c, f.Body), "watchServers starts no goroutine that receives from the service watcher: after creation the pool never follows the instances service discovery reports")
@@ -119,6 +144,10 @@ func c04Watch(c *core.Ctx, info *c04Info) {
 	}
 	w := ws[0]
 	res := analyze(c, f, flow.Config{
+		// only helpers on the way to the go statement are interpreted in place
+		Inline: inlineIf(f, func(callee *types.Func, g *flow.Func) bool {
+			return reachContains(g, 3, func(h *flow.Func, n ast.Node) bool { return n == ast.Node(w.gs) })
+		}),
 		OnNode: func(st *flow.State, n ast.Node) {
 			if n == ast.Node(w.gs) {
 				st.Set("ev:watching", flow.True)
@@ -147,8 +176,8 @@ func c04Watch(c *core.Ctx, info *c04Info) {
 
 	// the loop
 	consB := cons + "|watch loop applies every report until the pool is closed"
-	lf := f.Lit(w.lit)
-	loops := enclosingLoops(w.lit.Body, w.clause)
+	lf := w.lf
+	loops := enclosingLoops(w.body, w.clause)
 	var loop *ast.ForStmt
 	if len(loops) > 0 {
 		loop, _ = loops[0].(*ast.ForStmt)
@@ -158,7 +187,7 @@ func c04Watch(c *core.Ctx, info *c04Info) {
 		return
 	}
 	// exits of the loop only in a clause receiving from a channel field of the pool (done)
-	pm := parentMap(w.lit.Body)
+	pm := parentMap(w.body)
 	poolChanRecv := func(cc *ast.CommClause) bool {
 		var x ast.Expr
 		switch s := cc.Comm.(type) {
@@ -180,7 +209,7 @@ func c04Watch(c *core.Ctx, info *c04Info) {
 		_, isChan := fld.Type().Underlying().(*types.Chan)
 		return isChan && info.poolField(fld)
 	}
-	for _, x := range breaksOut(lf, loop, labelOf(w.lit.Body, loop)) {
+	for _, x := range breaksOut(lf, loop, labelOf(w.body, loop)) {
 		inDone := false
 		for p := pm[x]; p != nil; p = pm[p] {
 			if cc, ok := p.(*ast.CommClause); ok {
